@@ -219,7 +219,9 @@ def check_instance(p, ai, inst, hs=0, via_api=False):
         cid_of = {id(c.cls): c.cid for c in ai.classes}
         other = "+".join(cid_of.get(id(type(o)), type(o).__name__) for o in seen) or "nothing"
         shapes = "+".join(syntax_shape(type(o).syntax) if getattr(type(o), "syntax", None) else type(o).__name__ for o in seen) or "nothing"
-        key = "other-class/%s/%s->%s" % (key_arch(ai, [inst.cls] + [type(o) for o in seen]), syntax_shape(inst.cls.syntax), shapes)
+        # the mnemonic is part of the locus: another instruction that becomes ambiguous in the same syntactic shape is a different finding
+        mnem = next((el for el in inst.cls.syntax.syntax if isinstance(el, str) and el.strip()), "?")
+        key = "other-class/%s/%s/%s->%s" % (key_arch(ai, [inst.cls] + [type(o) for o in seen]), mnem, syntax_shape(inst.cls.syntax), shapes)
     elif forms(seen[0]) != forms(built):
         other = "same class, forms %s" % "/".join(forms(seen[0])[1:])
         fa, fb = forms(built)[1:], forms(seen[0])[1:]
